@@ -499,6 +499,13 @@ def fold_lenient(stmts, env, seeds=(), stop=None, visit=None):
         elif isinstance(st, (ast.For, ast.While, ast.Try, ast.With)):
             invalidate([st])
         elif isinstance(st, ast.AugAssign):
+            if isinstance(st.target, ast.Name) and st.target.id in env and type(st.op) in _BIN:
+                try:
+                    env[st.target.id] = _BIN[type(st.op)](type(env[st.target.id])(env[st.target.id]) if isinstance(env[st.target.id], (bytearray, list)) else env[st.target.id],
+                                                          const(st.value, env))
+                    continue
+                except Exception:
+                    pass
             invalidate([st])
     return False
 
